@@ -41,7 +41,7 @@ Toggle(f) == c' = [c EXCEPT ![f] = ~c[f]] /\ UNCHANGED gi
 SetCtx(x) == c' = [c EXCEPT !.ctx = x] /\ UNCHANGED gi
 SetWrapper(x) == c' = [c EXCEPT !.wrapper = x] /\ UNCHANGED gi
 Next == \/ \E f \in {"base", "embed", "order", "keyOrder", "arrays", "typeArr", "repeat", "litObj", "split"} : Toggle(f)
-        \/ \E x \in {"none", "prefix", "vocab"} : SetCtx(x)
+        \/ \E x \in {"none", "prefix", "vocab", "prefixRef"} : SetCtx(x)
         \/ \E x \in {"graph", "array"} : SetWrapper(x)
 Spec == Init /\ [][Next]_vars
 
